@@ -100,6 +100,10 @@ func (sf *Snowflake) Next() (int64, error) {
 		if sf.seq > MaxSeqID {
 			sf.seq = 0
 			currentTs = waitUntilNextTimeUnit(currentTs)
+			if currentTs > MaxTimeUnits {
+				log.Printf("Snowflake: time unit overflow")
+				return 0, ErrTimeUnitOverflow
+			}
 		}
 	} else {
 		sf.seq = 0
